@@ -116,7 +116,7 @@ func interopKeys() [][2][]byte {
 		initBLS()
 		keyTable = map[string][]byte{}
 		all := append(append([][]byte{}, daemon.Wallet1Keys...), daemon.Wallet2Keys...)
-		for i := 0; i < 480; i++ {
+		for i := 0; i < 1500; i++ {
 			h := sha256.Sum256([]byte(fmt.Sprintf("dirk-verif-key-%d", i)))
 			h[0] &= 0x3f
 			all = append(all, h[:])
